@@ -164,7 +164,7 @@ theorem matches_cover {p : Params} {own : Own} :
         obtain ⟨tr, recs', hrecs, -, hM'⟩ := hM
         obtain ⟨tr', h1, h2⟩ := ih _ _ recs' hM' hG' hV2 oc hoc' (by rw [hassoc]; exact hR)
         exact ⟨tr', by rw [hrecs]; exact List.mem_cons_of_mem _ h1, h2⟩
-      · simp only [ht, if_false] at hM
+      · simp only [ht] at hM
         exact ih _ _ recs hM hG' hV2 oc hoc' (by rw [hassoc]; exact hR)
 
 /-- BR2: the relevance records of `filterTxs` cover every transaction of the block that pays an owned address
@@ -189,5 +189,169 @@ theorem inv_cover {c : Ctx} {s : Store} {chain rest : List Block} {b : Block} {r
   rw [relAmong_iff_relOcc, occs_append, occs_singleton] at hR
   obtain ⟨tr, h1, h2⟩ := matches_cover _ _ _ _ hM hG hVb oc hoc (by rw [ht]; exact hR)
   exact ⟨tr, h1, h2.trans ht⟩
+
+-- ------------------------------------------------------------------ BR3: disconnect, the records of the tip block
+
+/-- the ids `touchIds` lists: the transactions that touch the running books -/
+theorem mem_touchIds {p : Params} {own : Own} {ocs : List Occ} {id : TxId} :
+    ∀ {B : Book}, id ∈ touchIds p own B ocs ↔
+      ∃ pre oc post, ocs = pre ++ oc :: post ∧ touches own (pre.foldl (applyOcc p own) B) oc.t = true ∧
+        oc.t.id = id := by
+  induction ocs with
+  | nil =>
+    intro B
+    simp [touchIds]
+  | cons x rest ih =>
+    intro B
+    simp only [touchIds, List.mem_append]
+    constructor
+    · rintro (h | h)
+      · by_cases ht : touches own B x.t = true
+        · rw [if_pos ht, List.mem_singleton] at h
+          exact ⟨[], x, rest, rfl, ht, h.symm⟩
+        · rw [if_neg ht] at h; cases h
+      · obtain ⟨pre, oc, post, hs, ht, hid⟩ := ih.1 h
+        exact ⟨x :: pre, oc, post, by rw [hs]; rfl, ht, hid⟩
+    · rintro ⟨pre, oc, post, hs, ht, hid⟩
+      cases pre with
+      | nil =>
+        simp only [List.nil_append, List.cons.injEq] at hs
+        obtain ⟨rfl, -⟩ := hs
+        left
+        simp only [List.foldl_nil] at ht
+        rw [if_pos ht, hid]; exact List.mem_singleton.2 rfl
+      | cons y pre =>
+        simp only [List.cons_append, List.cons.injEq] at hs
+        obtain ⟨rfl, hs⟩ := hs
+        right
+        exact ih.2 ⟨pre, oc, post, hs, ht, hid⟩
+
+theorem touchIds_sublist {p : Params} {own : Own} {ocs : List Occ} :
+    ∀ {B : Book}, (touchIds p own B ocs).Sublist (idsOf ocs) := by
+  induction ocs with
+  | nil => intro B; simp [touchIds, idsOf]
+  | cons x rest ih =>
+    intro B
+    unfold idsOf at ih ⊢
+    simp only [touchIds, List.map_cons]
+    by_cases ht : touches own B x.t = true
+    · rw [if_pos ht]; exact List.Sublist.cons_cons _ ih
+    · rw [if_neg ht]; exact List.Sublist.cons _ ih
+
+/-- the running books inside a valid run -/
+theorem glob_split {p : Params} {own : Own} {P pre post : List Occ} {oc : Occ} {B : Book} (hG : Glob own P B)
+    (hV : ValidFrom own P (pre ++ oc :: post)) :
+    Glob own (P ++ pre) (pre.foldl (applyOcc p own) B) ∧ OccValid own (P ++ pre) oc := by
+  obtain ⟨h1, h2⟩ := validFrom_append.1 hV
+  exact ⟨glob_fold (p := p) hG h1, h2.1⟩
+
+/-- a transaction that touches the running books is relevant w.r.t. the transactions before it -/
+theorem relOcc_of_touches {own : Own} {P : List Occ} {B : Book} {t : Tx} (hG : Glob own P B)
+    (ht : touches own B t = true) : RelOcc own P t := by
+  unfold touches at ht
+  rw [Bool.or_eq_true] at ht
+  rcases ht with h | h
+  · right
+    rw [Bool.and_eq_true] at h
+    obtain ⟨hcb, h⟩ := h
+    obtain ⟨i, hi, hl⟩ := List.any_eq_true.1 h
+    obtain ⟨u, hu⟩ := Option.isSome_iff_exists.1 hl
+    obtain ⟨⟨oc0, h0, hid, hout, hown, -, -⟩, -, htx, hidx, -⟩ := char_hit_created hG hu
+    refine ⟨by simpa using hcb, i, hi, oc0, h0, hid.trans htx, u.out, by rw [← hidx]; exact hout, by rw [hown]; rfl⟩
+  · left
+    obtain ⟨o, ho, hown⟩ := List.any_eq_true.1 h
+    exact ⟨o, ho, hown⟩
+
+theorem RelOcc.mono {own : Own} {Q Q' : List Occ} {t : Tx} (hsub : ∀ q ∈ Q, q ∈ Q') (h : RelOcc own Q t) :
+    RelOcc own Q' t := by
+  rcases h with h | ⟨hcb, i, hi, q, hq, rest⟩
+  · exact Or.inl h
+  · exact Or.inr ⟨hcb, i, hi, q, hsub q hq, rest⟩
+
+/-- the touching transactions of a valid run are exactly the relevant ones -/
+theorem touchIds_iff_relOcc {p : Params} {own : Own} {P ocs : List Occ} {B : Book} (hG : Glob own P B)
+    (hV : ValidFrom own P ocs) {oc : Occ} (hoc : oc ∈ ocs) :
+    oc.t.id ∈ touchIds p own B ocs ↔ RelOcc own (P ++ ocs) oc.t := by
+  have hn : (idsOf (P ++ ocs)).Nodup := (glob_fold (p := p) hG hV).idsNodup
+  constructor
+  · intro h
+    obtain ⟨pre, oc', post, hs, ht, hid⟩ := mem_touchIds.1 h
+    subst hs
+    have hoc' : oc' ∈ P ++ (pre ++ oc' :: post) := List.mem_append_right _ (by simp)
+    have he : oc' = oc := occ_eq_of_id hn hoc' (List.mem_append_right _ hoc) hid
+    subst he
+    obtain ⟨hG', -⟩ := glob_split (p := p) hG hV
+    refine RelOcc.mono ?_ (relOcc_of_touches hG' ht)
+    intro q hq
+    rcases List.mem_append.1 hq with h1 | h1
+    · exact List.mem_append_left _ h1
+    · exact List.mem_append_right _ (List.mem_append_left _ h1)
+  · intro hR
+    obtain ⟨pre, post, hs⟩ := List.append_of_mem hoc
+    subst hs
+    obtain ⟨hG', hV'⟩ := glob_split (p := p) hG hV
+    have ht : touches own (pre.foldl (applyOcc p own) B) oc.t = true := by
+      refine touches_of_relOcc hG' hV' ?_ hn hR
+      intro q hq
+      rcases List.mem_append.1 hq with h1 | h1
+      · exact List.mem_append_left _ h1
+      · exact List.mem_append_right _ (List.mem_append_left _ h1)
+    exact mem_touchIds.2 ⟨pre, oc, post, rfl, ht, rfl⟩
+
+/-- BR3a: the block record of the tip block lists exactly the relevant transactions of the block, each with a
+    transaction record that locates it in the block file; no block record iff no relevant transaction -/
+theorem inv_tip_records {c : Ctx} {s : Store} {chain : List Block} {b : Block} (hI : Inv c s (chain ++ [b]))
+    (hV : ChainValid c.own (chain ++ [b])) (hH : HeightsOK (chain ++ [b]))
+    (hk : AMap.get c.node.known b.id = some b) :
+    (∃ ids, AMap.get s.blocks b.height = some (b.id, ids) ∧ ids.Nodup ∧
+      (∀ id ∈ ids, ∃ loc t, AMap.get s.txrecs (id, ⟨b.height, b.id⟩) = some loc ∧
+          c.node.txByFileLoc loc = some t ∧ t.id = id ∧ t ∈ b.txs) ∧
+      (∀ t ∈ b.txs, t.id ∈ ids ↔ RelAmong c.own (chainTxs (chain ++ [b])) t)) ∨
+    (AMap.get s.blocks b.height = none ∧ ∀ t ∈ b.txs, ¬ RelAmong c.own (chainTxs (chain ++ [b])) t) := by
+  have hvc : ChainValid c.own chain := chainValid_prefix hV
+  have hG := glob_bookOf (p := c.p) hvc
+  have hVb := validFrom_tip hV
+  have hGall := glob_bookOf (p := c.p) hV
+  have hblk := hI.agree.blocks b.height
+  rw [bookOf_blocks_snoc c.p c.own chain b hH] at hblk
+  -- the iff, for the list of touching ids
+  have hiff : ∀ t ∈ b.txs, t.id ∈ touchIds c.p c.own (bookOf c.p c.own chain) (occsOfBlock b) ↔
+      RelAmong c.own (chainTxs (chain ++ [b])) t := by
+    intro t ht
+    obtain ⟨oc, hoc, hoct, -⟩ := occ_of_mem_block ht
+    have := touchIds_iff_relOcc (p := c.p) hG hVb hoc
+    rw [hoct] at this
+    rw [this, relAmong_iff_relOcc, occs_append, occs_singleton]
+  cases hids : touchIds c.p c.own (bookOf c.p c.own chain) (occsOfBlock b) with
+  | nil =>
+    right
+    rw [hids] at hblk
+    refine ⟨hblk, ?_⟩
+    intro t ht hR
+    have := (hiff t ht).2 hR
+    rw [hids] at this
+    cases this
+  | cons id0 ids0 =>
+    left
+    rw [hids] at hblk
+    refine ⟨id0 :: ids0, hblk, ?_, ?_, ?_⟩
+    · rw [← hids]
+      have hn := hGall.idsNodup
+      rw [occs_append, occs_singleton] at hn
+      unfold idsOf at hn
+      rw [List.map_append, List.nodup_append] at hn
+      exact List.Sublist.nodup touchIds_sublist hn.2.1
+    · intro id hid
+      rw [← hids] at hid
+      obtain ⟨pre, oc, post, hs, ht, hoid⟩ := mem_touchIds.1 hid
+      have hoc : oc ∈ occsOfBlock b := by rw [hs]; simp
+      obtain ⟨hbm, hloc⟩ := occFacts_of_known hk oc hoc
+      obtain ⟨m, hm, -, -⟩ := mem_occsFrom.1 hoc
+      refine ⟨(oc.bm.hash, oc.ti), oc.t, ?_, hloc, hoid, List.mem_of_getElem? hm⟩
+      rw [hI.agree.txrecs, bookOf_txrecs_iff hV]
+      refine ⟨occs chain ++ pre, oc, post, ?_, ?_, by rw [hoid, hbm], rfl⟩
+      · rw [occs_append, occs_singleton, hs, List.append_assoc]
+      · rw [List.foldl_append]; exact ht
+    · rw [← hids]; exact hiff
 
 end MW.Lemmas.PendHist
